@@ -125,6 +125,41 @@ def generated_cases(count, seed, max_comp=6):
     return cases
 
 
+LW_NONCANONICAL = ["tWW", "cWH", "tHW", "cHS", "tSH", "cSS"]
+
+
+def pairlist_cases(count, seed):
+    """Abstract base-pair lists for Mapping2D3D (spec -> code): a knotted scaffold of canonical cWW pairs
+    (Saenger XIX / XX / XXVIII, so that they are canonical whatever the residue letters are) plus 1..3
+    CONFLICTING canonical alternatives (one residue, two partners: exercises tertiary.py:638-651) plus a few
+    non-canonical pairs, some sharing a residue (exercises the row filling of extended_dot_bracket).
+    Positions are ordinals into the nucleotide list of the carrier structure (taken modulo its length)."""
+    rng = random.Random(seed * 7907 + 141)
+    cases = []
+    while len(cases) < count:
+        k = rng.choice([1, 2, 3, 3, 4])
+        n, scaffold = knotted_structure(rng, k, rng.randint(0, 2))
+        if n > 70 or (components(scaffold) or [0])[0] > 5:
+            continue
+        pairs = [[i - 1, j - 1, "cWW", rng.choice(["XIX", "XX", "XXVIII"])] for i, j in scaffold]
+        used = sorted({x for p in scaffold for x in p})
+        for _ in range(rng.randint(1, 3)):      # conflicts
+            i, j = rng.choice(scaffold)
+            a = rng.choice([i, j])
+            b = rng.randint(1, n)
+            if b == a or [min(a, b), max(a, b)] in scaffold:
+                continue
+            pairs.append([min(a, b) - 1, max(a, b) - 1, "cWW", rng.choice(["XIX", "XX", "XXVIII"])])
+        for _ in range(rng.randint(0, 4)):      # non-canonical, possibly multi-partner
+            a = rng.choice(used) if rng.random() < 0.5 else rng.randint(1, n)
+            b = rng.randint(1, n)
+            if a != b:
+                pairs.append([min(a, b) - 1, max(a, b) - 1, rng.choice(LW_NONCANONICAL), ""])
+        rng.shuffle(pairs)
+        cases.append({"name": f"p{seed}-{len(cases)}", "n": n, "pairs": pairs})
+    return cases
+
+
 # ------------------------------------------------------------------ observation (runs in the child)
 
 def _digest(text):
@@ -323,7 +358,45 @@ def observe_v2(task, rep, workdir):
     return out
 
 
-OBSERVERS = {"file": observe_file, "bp": observe_bp, "v2": observe_v2}
+def observe_map(task, rep, workdir):
+    """Mapping2D3D on a carrier structure with generated (conflicting) base-pair lists."""
+    from rnapolis.annotator import handle_input_file
+    from rnapolis.common import BasePair, LeontisWesthof, Residue, Saenger
+    from rnapolis.parser import read_3d_structure
+    from rnapolis.tertiary import Mapping2D3D
+    out = []
+    s3 = read_3d_structure(handle_input_file(task["path"]), None)
+    nts = [r for r in s3.residues if r.is_nucleotide]
+    for lst in task["lists"]:
+        name = lst["name"]
+        bps = []
+        for i, j, lw, sg in lst["pairs"]:
+            a, b = nts[i % len(nts)], nts[j % len(nts)]
+            if a is b:
+                continue
+            bps.append(BasePair(Residue(a.label, a.auth), Residue(b.label, b.auth), LeontisWesthof[lw],
+                                Saenger[sg] if sg else None))
+        m = Mapping2D3D(s3, bps, [], False)
+        text = None
+        for a, fn in (("bpseq", lambda: str(m.bpseq)), ("map_dot_bracket", lambda: m.dot_bracket),
+                      ("ext_dot_bracket", lambda: m.extended_dot_bracket)):
+            try:
+                v = fn()
+                if a == "bpseq":
+                    text = v
+                out.append(_obs(name, a, rep, text=v))
+            except Exception as e:
+                out.append(_obs(name, a, rep, err=type(e).__name__))
+        sizes = components(_pairs_of_bpseq_text(text)) if text else []
+        if text and (not sizes or sizes[0] <= 6):
+            try:
+                out.append(_obs(name, "map_all_dot_brackets", rep, items=m.all_dot_brackets))
+            except Exception as e:
+                out.append(_obs(name, "map_all_dot_brackets", rep, err=type(e).__name__))
+    return out
+
+
+OBSERVERS = {"file": observe_file, "bp": observe_bp, "v2": observe_v2, "map": observe_map}
 
 
 def child_main(jobfile):
@@ -414,7 +487,8 @@ def run_children(tasks, seeds, nshards, scratch, reps=2, timeout=1500):
 ABBR = {"all_dot_brackets": "adb", "map_all_dot_brackets": "madb", "cli_stdout_all": "cadb", "elements": "elem",
         "optimal_db": "opt", "fcfs": "fcfs", "cli_json": "json", "cli_csv": "csv", "cli_bpseq": "bpseq",
         "cli_stdout": "out", "cli_stdout_extended": "ext", "cli_graphviz": "gv", "cli_pml": "pml",
-        "cli_inter_stem_csv": "iscsv", "cli_stems_csv": "stcsv", "v2_write_pdb": "wpdb", "v2_write_cif": "wcif"}
+        "cli_inter_stem_csv": "iscsv", "cli_stems_csv": "stcsv", "v2_write_pdb": "wpdb", "v2_write_cif": "wcif",
+        "bpseq": "mbps", "map_dot_bracket": "mdb", "ext_dot_bracket": "mext"}
 
 
 def cases_from(grouped):
